@@ -686,6 +686,14 @@ func run(c *hx.Ctx) error {
 						min = cand
 						break
 					}
+					if min.Program() && strings.HasSuffix(n, ".go") { // an imported package as the main package
+						src := pkgClauseRe.ReplaceAll(min.Files[n], []byte("package main"))
+						src = append(src, "\nfunc main() {}\n"...)
+						if cand := (lexh.BuildCase{Kind: min.Kind, Entry: entry, Files: map[string][]byte{entry: src}}); same(cand) {
+							min = cand
+							break
+						}
+					}
 				}
 			}
 			// shrink the file whose removal of bytes keeps the same failure; other files stay
@@ -818,6 +826,7 @@ func hugeArrayClass(c *hx.Ctx, b lexh.BuildCase, br lexh.BuildResult, buildOne f
 }
 
 var digitsRe = regexp.MustCompile(`[0-9]+`)
+var pkgClauseRe = regexp.MustCompile(`^[ \t\n]*package[ \t]+[A-Za-z_][A-Za-z0-9_]*`)
 
 func firstWords(s string, n int) string {
 	f := strings.Fields(s)
